@@ -7,7 +7,7 @@ from lib.vf import Case
 
 ID = "C19"
 FULL_OUTPUT = True
-PART_NAMES = ["c19_ps", "c19_framing", "c19_aac", "c19_sdp"]
+PART_NAMES = ["c19_ps", "c19_framing", "c19_aac", "c19_sdp", "c19_multi"]
 PARTS = []
 for _n in PART_NAMES:
     try:
@@ -22,6 +22,9 @@ ASSUMPTIONS = [a for p in PARTS for a in getattr(p, "ASSUMPTIONS", [])]
 
 def _part(line):
     op = line.split(" ", 1)[0]
+    for p in PARTS:
+        if hasattr(p, "claims") and p.claims(line):     # a part may answer for another part's op on its own input class
+            return p
     for p in PARTS:
         if op in p.OPS:
             return p
